@@ -20,6 +20,18 @@ class LibraryRaised(Exception):
         self.item = item
 
 
+class JudgeError(Exception):
+    """the harness' own judging code raised while interpreting what the library returned (shape it cannot
+    broadcast, NaN that the oracle SVD rejects, a missing key in a diagnostics dict, ...).  On the unchanged
+    tree this never happens (every soak run is free of it); on a changed tree it means the library returned
+    something the contract does not allow, so core.main reports it as a verdict, not as a machinery failure."""
+
+    def __init__(self, tb, item=None):
+        Exception.__init__(self, tb)
+        self.tb = tb
+        self.item = item
+
+
 def innermost_in_repo(tb):
     """True if the innermost frame that belongs to either the harness or the
     library under test is a library frame (frames of numpy/scipy/stdlib called
@@ -61,5 +73,5 @@ def pmap(fn, items, procs=None, chunk=None):
         if isinstance(r, tuple) and len(r) == 3 and r[0] == "__exc__":
             if r[2]:
                 raise LibraryRaised(r[1], repr(a)[:2000])
-            raise RuntimeError("harness exception in worker:\n" + r[1])
+            raise JudgeError(r[1], repr(a)[:2000])
     return out
